@@ -45,11 +45,8 @@ with sstmt :=
 | SNop                                    (* needs / struct declaration *)
 with sstmts := SNil | SCons (s : sstmt) (r : sstmts).
 
-(* ---- one lowered function, with two ghost fields used only to classify failures *)
-Record fn_out := mkfn {
-  f_blocks : list block;          (* in Vec order *)
-  f_open : option N;              (* pending_block_id left over when the function ended *)
-  f_dropped : list N }.           (* pending ids overwritten by a later fixup_block_id_noop *)
+(* ---- one lowered function *)
+Record fn_out := mkfn { f_blocks : list block }.   (* in Vec order *)
 
 Record st := mk {
   next : N;                       (* next_block_id *)
@@ -59,35 +56,41 @@ Record st := mk {
   aliases : list (N * N);         (* block_aliases in push order *)
   loops : list (N * N);           (* loop_stack, innermost first: (header, exit) *)
   names : list N;                 (* locals_by_name (membership is all that matters) *)
-  dropped : list N;               (* ghost *)
   out : list fn_out }.            (* functions pushed so far, in push order *)
 
-Definition init : st := mk 0 [] false None [] [] [] [] [].
+Definition init : st := mk 0 [] false None [] [] [] [].
 
 Definition alloc (s : st) : N * st :=
-  (next s, mk (next s + 1) (blocks s) (dirty s) (pending s) (aliases s) (loops s) (names s) (dropped s) (out s)).
+  (next s, mk (next s + 1) (blocks s) (dirty s) (pending s) (aliases s) (loops s) (names s) (out s)).
 
 Definition seal (t : term) (s : st) : st :=
   match pending s with
-  | Some p => mk (next s) ((p, t) :: blocks s) false None (aliases s) (loops s) (names s) (dropped s) (out s)
-  | None => mk (next s + 1) ((next s, t) :: blocks s) false None (aliases s) (loops s) (names s) (dropped s) (out s)
+  | Some p => mk (next s) ((p, t) :: blocks s) false None (aliases s) (loops s) (names s) (out s)
+  | None => mk (next s + 1) ((next s, t) :: blocks s) false None (aliases s) (loops s) (names s) (out s)
   end.
 
 Definition emit (s : st) : st :=
-  mk (next s) (blocks s) true (pending s) (aliases s) (loops s) (names s) (dropped s) (out s).
+  mk (next s) (blocks s) true (pending s) (aliases s) (loops s) (names s) (out s).
 
 Definition fixup (target : N) (s : st) : st :=
   match blocks s with
   | (old, t) :: r =>
       mk (next s) ((target, t) :: r) (dirty s) (pending s)
          (if old =? target then aliases s else aliases s ++ [(old, target)])
-         (loops s) (names s) (dropped s) (out s)
+         (loops s) (names s) (out s)
   | [] => s
   end.
 
+(* fixup_block_id_noop: a different id that is still pending is first materialised as an empty
+   block falling through to the new target (fix eb19006+5d902b4 era: it used to be overwritten) *)
+Definition noop_raw (target : N) (s : st) : st :=
+  mk (next s) (blocks s) (dirty s) (Some target) (aliases s) (loops s) (names s) (out s).
 Definition noop (target : N) (s : st) : st :=
-  mk (next s) (blocks s) (dirty s) (Some target) (aliases s) (loops s) (names s)
-     (match pending s with Some p => dropped s ++ [p] | None => dropped s end) (out s).
+  noop_raw target
+    (match pending s with
+     | Some p => if p =? target then s else seal (TGoto target) s
+     | None => s
+     end).
 
 Definition terminated (s : st) : bool :=
   negb (dirty s) &&
@@ -101,14 +104,14 @@ Definition seal_unless_terminated (t : term) (s : st) : st :=
   if terminated s then s else seal t s.
 
 Definition add_name (x : N) (s : st) : st :=
-  mk (next s) (blocks s) (dirty s) (pending s) (aliases s) (loops s) (x :: names s) (dropped s) (out s).
+  mk (next s) (blocks s) (dirty s) (pending s) (aliases s) (loops s) (x :: names s) (out s).
 
 Definition memN (x : N) (l : list N) : bool := existsb (N.eqb x) l.
 
 Definition push_loop (h e : N) (s : st) : st :=
-  mk (next s) (blocks s) (dirty s) (pending s) (aliases s) ((h, e) :: loops s) (names s) (dropped s) (out s).
+  mk (next s) (blocks s) (dirty s) (pending s) (aliases s) ((h, e) :: loops s) (names s) (out s).
 Definition pop_loop (s : st) : st :=
-  mk (next s) (blocks s) (dirty s) (pending s) (aliases s) (tl (loops s)) (names s) (dropped s) (out s).
+  mk (next s) (blocks s) (dirty s) (pending s) (aliases s) (tl (loops s)) (names s) (out s).
 
 (* resolve_block_aliases *)
 Fixpoint resolve_n (fuel : nat) (al : list (N * N)) (cur : N) : N :=
@@ -129,18 +132,19 @@ Definition resolve_term (al : list (N * N)) (t : term) : term :=
 
 Definition finalize (s : st) : st :=
   if (negb (dirty s) && match blocks s with [] => true | _ => false end) || dirty s
+     || match pending s with Some _ => true | None => false end
   then seal TRet s else s.
 
-(* lower_function: everything but loop_stack (and the output) is saved, reset, restored *)
+(* lower_function: everything (but the output) is saved, reset, restored *)
 Definition fn_enter (caps params : list N) (s : st) : st :=
-  mk 0 [] (match caps with [] => false | _ => true end) None [] (loops s)
-     (rev params ++ rev caps) [] (out s).
+  mk 0 [] (match caps with [] => false | _ => true end) None [] []
+     (rev params ++ rev caps) (out s).
 
 Definition fn_exit (saved body_end : st) : st :=
   let f := finalize body_end in
   let bl := map (fun b => (fst b, resolve_term (aliases f) (snd b))) (rev (blocks f)) in
-  mk (next saved) (blocks saved) (dirty saved) (pending saved) (aliases saved) (loops f)
-     (names saved) (dropped saved) (out f ++ [mkfn bl (pending f) (dropped f)]).
+  mk (next saved) (blocks saved) (dirty saved) (pending saved) (aliases saved) (loops saved)
+     (names saved) (out f ++ [mkfn bl]).
 
 Fixpoint lower_expr (e : sexpr) (s : st) : st :=
   match e with
@@ -272,16 +276,6 @@ Definition wf_prog (fs : list fn_out) : bool := forallb wf_fn fs.
 Definition dangling (bl : list block) : list N :=
   filter (fun t => negb (memN t (map fst bl))) (flat_map (fun b => targets (snd b)) bl).
 
-(* Known root causes, as decidable predicates on the lowered function (ghost fields):
-   K1: the function ended while a merge/exit id was still pending (finalize_function_body ignores it)
-   K2: a pending id was overwritten by a later fixup_block_id_noop. *)
-Definition lost_ids (f : fn_out) : list N :=
-  (match f_open f with Some p => [p] | None => [] end) ++ f_dropped f.
-Definition known_class (f : fn_out) : bool :=
-  existsb (fun t => memN t (lost_ids f)) (dangling (f_blocks f)).
-Definition dangling_all_lost (f : fn_out) : bool :=
-  forallb (fun t => memN t (lost_ids f)) (dangling (f_blocks f)).
-
 (* ---- canonical observation for the tie: ids renamed by first appearance
         (block id, then its targets, in Vec order) *)
 Definition ren (m : list (N * N)) (x : N) : N * list (N * N) :=
@@ -309,18 +303,6 @@ Fixpoint obs_blocks (m : list (N * N)) (bl : list block) : list (list N) * list 
 
 Definition obs_fn (f : fn_out) : list (list N) := fst (obs_blocks [] (f_blocks f)).
 Definition obs (p : sstmts) : list (list (list N)) := map obs_fn (lower p).
-
-(* canonical ids of the lost (open / dropped) block ids that are actually branched to *)
-Definition canon_of (f : fn_out) (l : list N) : list N :=
-  let m := snd (obs_blocks [] (f_blocks f)) in
-  flat_map (fun x => match find (fun p => fst p =? x) m with Some (_, y) => [y] | None => [] end)
-           (filter (fun x => memN x (dangling (f_blocks f))) l).
-Definition open_obs_fn (f : fn_out) : list N :=
-  canon_of f (match f_open f with Some p => [p] | None => [] end).
-Definition dropped_obs_fn (f : fn_out) : list N := canon_of f (f_dropped f).
-(* per function: (dangling ids lost at the end of the function, dangling ids lost by overwriting) *)
-Definition lost_obs (p : sstmts) : list (list N * list N) :=
-  map (fun f => (open_obs_fn f, dropped_obs_fn f)) (lower p).
 
 Definition nlist_eqb (a b : list N) : bool :=
   (fix go a b := match a, b with
